@@ -180,6 +180,16 @@ class RealFactory:
 
 def run_and_compare(cs):
     """(observed, diffs) for a single or multi-world concretised script"""
+    if cs.get("kind") == "kernel":
+        from props.kernels import run_kernel_script
+        o = run_kernel_script(cs)
+        diffs = []
+        for k, v in cs["predicted"].items():
+            rv = o.get(k)
+            same = (rv == v) or (isinstance(rv, (int, float)) and isinstance(v, (int, float)) and abs(rv - v) < 1e-6)
+            if not same:
+                diffs.append("%s: predicted %r, real %r" % (k, v, rv))
+        return dict(obs=[[k, v] for k, v in sorted(o.items())]), diffs
     if cs.get("kind") == "db":
         from . import realfs
         o = realfs.run_db_script(cs)
